@@ -39,7 +39,7 @@ func (f *c11File) WriteAt(p []byte, off int64) (int, error) {
 	copy(f.b[off:], p)
 	return len(p), nil
 }
-func (f *c11File) Truncate(size int64) error { f.b = f.b[:size]; return nil }
+func (f *c11File) Truncate(size int64) error  { f.b = f.b[:size]; return nil }
 func (f *c11File) Stat() (os.FileInfo, error) { return c11Info{int64(len(f.b))}, nil }
 
 type c11Info struct{ size int64 }
@@ -57,9 +57,33 @@ type c11Input struct {
 	Items      int    `json:"items"`      // distinct keys per non-empty collection
 	Overwrites int    `json:"overwrites"` // keys set a second time (superseded versions in the source file)
 	Deletes    int    `json:"deletes"`
-	State      string `json:"state"`      // dirty | flushed | evicted | snapshot | reopened | memonly
-	Cmp        string `json:"cmp"`        // bytes | reverse
+	State      string `json:"state"` // dirty | flushed | evicted | snapshot | reopened | memonly
+	Cmp        string `json:"cmp"`   // bytes | reverse
 	FlushEvery int    `json:"flushEvery"`
+	Recycle    bool   `json:"recycle,omitempty"` // the source store has behaviourally neutral reference-counting callbacks that recycle released items
+}
+
+// c11Pool: neutral ItemAlloc/ItemAddRef/ItemDecRef callbacks that overwrite an item's key and value bytes when its
+// count returns to zero (what a pooling allocator that reuses the buffers does). C17: no result may change.
+type c11Pool struct{ cnt map[*Item]int }
+
+func (p *c11Pool) drop(i *Item) {
+	p.cnt[i]--
+	if p.cnt[i] == 0 {
+		for k := range i.Key {
+			i.Key[k] = 0xEE
+		}
+		for k := range i.Val {
+			i.Val[k] = 0xEE
+		}
+	}
+}
+func (p *c11Pool) callbacks() StoreCallbacks {
+	return StoreCallbacks{
+		ItemAlloc:  func(c *Collection, n uint32) *Item { i := &Item{Key: make([]byte, n)}; p.cnt[i] = 1; return i },
+		ItemAddRef: func(c *Collection, i *Item) { p.cnt[i]++ },
+		ItemDecRef: func(c *Collection, i *Item) { p.drop(i) },
+	}
 }
 
 func c11Reverse(a, b []byte) int { return bytes.Compare(b, a) }
@@ -81,7 +105,12 @@ func c11Build(in c11Input) (*Store, *c11File, c11Model, error) {
 		f = &c11File{}
 		sf = f
 	}
-	s, err := NewStore(sf)
+	var cbs StoreCallbacks
+	pool := &c11Pool{cnt: map[*Item]int{}}
+	if in.Recycle {
+		cbs = pool.callbacks()
+	}
+	s, err := NewStoreEx(sf, cbs)
 	if err != nil {
 		return nil, nil, nil, err
 	}
@@ -101,7 +130,11 @@ func c11Build(in c11Input) (*Store, *c11File, c11Model, error) {
 			}
 			pri := int32((k*7919+gen*104729+c*13)%1000 + 1)
 			m[name][key] = fmt.Sprintf("%s|%d", val, pri)
-			return col.SetItem(&Item{Key: []byte(key), Val: append([]byte{}, val...), Priority: pri})
+			it := &Item{Key: []byte(key), Val: append([]byte{}, val...), Priority: pri}
+			pool.cnt[it] = 1 // the application's own reference, for the duration of the call
+			err := col.SetItem(it)
+			pool.drop(it)
+			return err
 		}
 		for k := 0; k < in.Items; k++ {
 			if err := set(k, 0); err != nil {
@@ -150,7 +183,7 @@ func c11Build(in c11Input) (*Store, *c11File, c11Model, error) {
 	case "reopened":
 		if err = s.Flush(); err == nil {
 			s.Close()
-			s, err = NewStore(f)
+			s, err = NewStoreEx(f, cbs)
 			if err == nil && in.Cmp == "reverse" {
 				for _, n := range s.GetCollectionNames() {
 					s.SetCollection(n, c11Reverse) // comparators are not persisted; re-install as the docs require
@@ -359,6 +392,16 @@ func c11Space() []c11Input {
 				}
 			}
 		}
+	}
+	// the same under recycling reference-counting callbacks on the source (C17), for a sample of the space
+	n := len(out)
+	for k := 0; k < n; k += 5 {
+		in := out[k]
+		if in.State == "memonly" || in.State == "snapshot" || in.Items == 0 {
+			continue
+		}
+		in.Recycle = true
+		out = append(out, in)
 	}
 	return out
 }
